@@ -15,6 +15,7 @@ class Ctx:
         self.tier = tier
         self.log = log
         self.q = oblig.Q()
+        self.q.slow_log = log
         if tier == "thorough":
             self.q.cross_check = True
             self.q.tmpdir = os.path.join(dump.CACHE, "smt")
